@@ -83,15 +83,25 @@ Proof.
   - intro E. apply (f_equal (@length R)) in E. rewrite cumsum_length in E. destruct l; [congruence | simpl in E; lia].
 Qed.
 
+Lemma elem_le_vsum (l : list R) k : List.Forall (fun v => 0 < v) l -> (k < length l)%nat -> nth k l 0 <= vsumR l.
+Proof.
+  revert k; induction l as [|a l IH]; intros k H Hk; [simpl in Hk; lia|].
+  inversion H as [|? ? Pa Hl]; subst. rewrite vsum_cons. pose proof (vsum_nonneg l Hl) as N.
+  destruct k as [|k]; [cbn [nth]; lra|]. cbn [nth]. specialize (IH k Hl ltac:(simpl in Hk; lia)). lra.
+Qed.
+
 Section QWhole.
   Variables (minw minh : R) (bx : @box R) (uw uh : list R).
   Let K := length uw.
-  Hypothesis (HK : uw <> []) (Hlh : length uh = S K)
+  (* K + 1 node heights (bounded form), or K - 1 with the boundary constant computed by the code (the form the tails wrapper uses;
+     it needs at least two bins - with one bin the code indexes into an empty tensor) *)
+  Hypothesis (HK : uw <> []) (Hlh : length uh = S K \/ (length uh = (K - 1)%nat /\ (2 <= K)%nat))
              (Hw0 : 0 <= minw) (HwK : minw * INR K <= 1) (Hh0 : 0 <= minh) (HhK : minh * INR K <= 1)
              (Hlr : b_left bx < b_right bx) (Hbt : b_bottom bx < b_top bx).
 
   Let ws := q_widths Rops minw uw.
-  Let e := map (quad_unnorm_height Rops) uh.
+  Let e0 := map (quad_unnorm_height Rops) uh.
+  Let e := q_unnorm_heights Rops ws uh.
   Let area := vsumR (trapezoids Rops e ws).
   Let hs := q_heights Rops minh ws uh.
   Let traps := trapezoids Rops hs ws.
@@ -126,20 +136,73 @@ Section QWhole.
     rewrite (vsum_map_affine minw (1 - minw * INR K)). rewrite softmax_length, softmax_sum by exact HK. fold K. lra.
   Qed.
 
-  Lemma e_length : length e = S K.
-  Proof. unfold e. rewrite map_length. exact Hlh. Qed.
+  Lemma ws_nth_pos k : (k < K)%nat -> 0 < nth k ws 0.
+  Proof. intros Hk. pose proof ws_pos as P. rewrite Forall_forall in P. apply P. apply nth_In. rewrite ws_length. exact Hk. Qed.
 
-  Lemma e_pos : List.Forall (fun v => 0 < v) e.
+  Lemma e0_pos : List.Forall (fun v => 0 < v) e0.
   Proof.
-    unfold e. rewrite Forall_forall. intros v Hv. rewrite in_map_iff in Hv. destruct Hv as [s [<- _]].
+    unfold e0. rewrite Forall_forall. intros v Hv. rewrite in_map_iff in Hv. destruct Hv as [s [<- _]].
     unfold quad_unnorm_height, o_lit. cbn [o_add o_div o_ofZ Rops]. pose proof (softplus_pos s). change (IZR 1) with 1. lra.
   Qed.
 
-  Lemma unnorm_is_e : q_unnorm_heights Rops ws uh = e.
+  Lemma removelast_len (l : list R) : length (removelast l) = (length l - 1)%nat.
   Proof.
-    unfold q_unnorm_heights. fold e. rewrite e_length, ws_length.
-    assert (E : Nat.eqb (S K) (K - 1) = false) by (apply Nat.eqb_neq; lia). rewrite E. reflexivity.
+    destruct l as [|b l]; [reflexivity|].
+    pose proof (app_removelast_last 0 (l := b :: l) ltac:(discriminate)) as E.
+    apply (f_equal (@length R)) in E. rewrite app_length in E. cbn [length] in E. cbn [length]. lia.
   Qed.
+
+  Lemma inner_length (l : list R) : length (inner l) = (length l - 2)%nat.
+  Proof.
+    unfold inner. rewrite removelast_len. destruct l as [|a l]; [reflexivity|]. cbn [tl length]. lia.
+  Qed.
+
+  Lemma inner_pos (l : list R) : List.Forall (fun v => 0 < v) l -> List.Forall (fun v => 0 < v) (inner l).
+  Proof.
+    intros H. rewrite Forall_forall in *. intros v Hv. apply H. unfold inner in Hv.
+    destruct l as [|a l]; [inversion Hv|]. cbn [tl] in Hv. right.
+    destruct l as [|b l]; [inversion Hv|]. 
+    assert (In v (removelast (b :: l) ++ [last (b :: l) 0])) by (apply in_or_app; left; exact Hv).
+    rewrite <- app_removelast_last in H0 by discriminate. exact H0.
+  Qed.
+
+  Lemma vsum_nonneg_R (l : list R) : List.Forall (fun v => 0 < v) l -> 0 <= vsumR l.
+  Proof. apply vsum_nonneg. Qed.
+
+  Lemma ws_le_1 k : (k < K)%nat -> nth k ws 0 <= 1.
+  Proof. intros Hk. rewrite <- ws_sum. apply elem_le_vsum; [apply ws_pos | rewrite ws_length; exact Hk]. Qed.
+
+  Lemma e_facts : length e = S K /\ List.Forall (fun v => 0 < v) e.
+  Proof.
+    unfold e, q_unnorm_heights. fold e0. pose proof e0_pos as P0.
+    assert (L0 : length e0 = length uh) by (unfold e0; apply map_length).
+    destruct Hlh as [H|[H K2]].
+    - assert (E : Nat.eqb (length e0) (length ws - 1) = false) by (apply Nat.eqb_neq; rewrite L0, H, ws_length; lia).
+      rewrite E. split; [rewrite L0; exact H | exact P0].
+    - assert (E : Nat.eqb (length e0) (length ws - 1) = true) by (apply Nat.eqb_eq; rewrite L0, H, ws_length; reflexivity).
+      rewrite E. split.
+      + cbn [length]. rewrite app_length. cbn [length]. rewrite L0, H. lia.
+      + (* the boundary constant is positive *)
+        set (c := quad_boundary_constant Rops (nthT Rops 0 ws) (last ws (o_zero Rops)) (nthT Rops 0 e0) (last e0 (o_zero Rops))
+                    (vsum Rops (trapezoids Rops e0 (inner ws)))).
+        assert (Pc : 0 < c).
+        { unfold c, quad_boundary_constant, o_lit, nthT. cbn [Rops o_mul o_div o_add o_sub o_ofZ o_zero].
+          change (IZR 1) with 1. change (IZR 2) with 2.
+          pose proof (ws_nth_pos 0 ltac:(lia)) as W0. pose proof (ws_le_1 0 ltac:(lia)) as W0'.
+          assert (WL : 0 < last ws 0 <= 1).
+          { rewrite last_nth, ws_length. split; [apply ws_nth_pos; lia | apply ws_le_1; lia]. }
+          assert (E0 : 0 < nth 0 e0 0).
+          { rewrite Forall_forall in P0. apply P0. apply nth_In. rewrite L0, H. lia. }
+          assert (EL : 0 < last e0 0).
+          { rewrite last_nth. rewrite Forall_forall in P0. apply P0. apply nth_In. rewrite L0, H. lia. }
+          assert (IS : 0 <= vsumR (trapezoids Rops e0 (inner ws))).
+          { apply vsum_nonneg. apply trapezoids_pos; [rewrite inner_length, L0, H, ws_length; lia | exact P0 | apply inner_pos; apply ws_pos]. }
+          apply Rdiv_lt_0_compat; nra. }
+        constructor; [exact Pc|]. apply Forall_app. split; [exact P0 | constructor; [exact Pc | constructor]].
+  Qed.
+
+  Lemma e_length : length e = S K. Proof. apply e_facts. Qed.
+  Lemma e_pos : List.Forall (fun v => 0 < v) e. Proof. apply e_facts. Qed.
 
   Lemma area_pos : 0 < area.
   Proof.
@@ -151,7 +214,7 @@ Section QWhole.
 
   Lemma hs_eq : hs = map (fun v => minh + (1 - minh) / area * v) e.
   Proof.
-    unfold hs, q_heights. rewrite unnorm_is_e. fold area. apply map_ext. intros v.
+    unfold hs, q_heights. fold e. fold area. apply map_ext. intros v.
     unfold quad_height_affine. cbn [o_add o_mul o_sub o_div o_ofZ Rops]. change (IZR 1) with 1. pose proof area_pos. field. lra.
   Qed.
 
@@ -173,8 +236,6 @@ Section QWhole.
   Lemma hs_nth_pos k : (k <= K)%nat -> 0 < nth k hs 0.
   Proof. intros Hk. pose proof hs_pos as P. rewrite Forall_forall in P. apply P. apply nth_In. rewrite hs_length. lia. Qed.
 
-  Lemma ws_nth_pos k : (k < K)%nat -> 0 < nth k ws 0.
-  Proof. intros Hk. pose proof ws_pos as P. rewrite Forall_forall in P. apply P. apply nth_In. rewrite ws_length. exact Hk. Qed.
 
   Lemma traps_length : length traps = K.
   Proof. unfold traps. rewrite trapezoids_length by (rewrite hs_length, ws_length; reflexivity). apply ws_length. Qed.
